@@ -245,6 +245,9 @@ void execute_status(const Plan &plan, Verdict &v, bool c11, bool c12) {
     cfg.queue = (int) std::max(1L, std::min(16L, plan.k("queue", 4)));
     cfg.inbuf = (int) std::max(40L, std::min(400L, plan.k("inbuf", 256)));
     cfg.wr_mode = (int) (plan.k("wr_mode", 0) & 3);
+    // firmware may install no error callback at all (C11 does not need it as an observer; C12 does)
+    cfg.with_error_cb = !(c11 && !c12 && plan.k("no_error_cb", 0));
+    if (!cfg.with_error_cb) COUNT("fault_no_error_callback_installed");
     World w(cfg);
     w.add_standard_commands();
     w.add_command("FW:ACT", [](World &ww) {
@@ -421,6 +424,7 @@ void generate_status(Rng &r, const GenOpts &g, Plan &p) {
     p.knob["queue"] = r.range(1, 8);
     if (r.chance(1, 4)) p.knob["inbuf"] = r.range(40, 90);
     if (r.chance(1, 5)) p.knob["wr_mode"] = r.range(1, 3);
+    if (r.chance(1, 8)) p.knob["no_error_cb"] = 1;
     long n = r.chance(1, 10) ? r.range(20, thorough ? 200 : 60) : r.range(1, 14);
     int fw_rate = (int) r.below(4);   // 0: none, 1: low, 2: even, 3: high
     for (long i = 0; i < n; i++) {
@@ -477,7 +481,7 @@ const Property C11 = {
     generate_status,
     exec_c11,
     {"probe_enable_written_while_event_set", "probe_sre_written_while_summary_set", "fw_action_inside_handler", "fault_queue_overflow",
-     "srq_callbacks", "fault_idle_flush"},
+     "srq_callbacks", "fault_idle_flush", "fault_no_error_callback_installed"},
     "seeded histories of 1..60 (thorough: ..200) events interleaving controller status messages (1-4 units, seeded segmentation) with firmware "
     "register/error-queue calls, some placed inside handlers; invariant evaluated from SCPI_RegGet/SCPI_ErrorCount after every API call, handler, "
     "unit and input call. distinct_nontrivial = distinct canonical trace hashes of runs in which a handler ran or an error was raised.",
